@@ -114,6 +114,14 @@ fn c17_with(log: &mut Log, seed: u64, tier: &str, limits: bool) {
         for d in 0..=2u32 {
             let mut limits: Vec<usize> = (1..=12).collect();
             limits.extend(vec![16, 24, 32, 48, 64, 100, 200, 1000, 10000]);
+            // and every limit just below and at the automaton's real size
+            if let Ok(Ok(lev)) = guard(|| Levenshtein::new_with_limit(&text(q), d, 10000)) {
+                let n = tabulate(&lev, 100000).map(|t| t.n).unwrap_or(0);
+                limits.extend(n.saturating_sub(24)..=n + 1);
+                limits.sort();
+                limits.dedup();
+                limits.retain(|&l| l >= 1);
+            }
             for &limit in &limits {
                 match guard(|| Levenshtein::new_with_limit(&text(q), d, limit)) {
                     Ok(Ok(lev)) => {
